@@ -332,6 +332,13 @@ def check_generated(ctx, case):
         return
     c = dict(case, data=g, units=units, built=how)
     first_ok = roundtrip(ctx, c, o['ok'], units)
+    if first_ok and rng.random() < 0.3:
+        # copies / unpickled copies of the object format to the same text
+        from vmon.core import clones
+        clones.agreement(ctx, c, o['ok'], [
+            ('yaml_format(units)', lambda x: x.yaml_format(units)),
+            ('yaml_format({})', lambda x: x.yaml_format({}))],
+            'correlation object', 'after')
     if first_ok and rng.random() < 0.5:
         # the same OBJECT changed through its own API and formatted again
         # with the same unit choice: the text must follow the object
